@@ -35,13 +35,13 @@ def run(ctx):
     prog = ctx.prog
     tool = prog.func("command_line.signals_to_torch_feat_dir")
     cfg = CFG(tool.node)
-    info = manifest_sites(ctx, tool, cfg)
-    save_before_ack(ctx, tool, cfg, info)
-    durable_ack(ctx, tool, cfg, info)
-    filter_before_work(ctx, tool, cfg, info)
-    seed_identity(ctx, tool, cfg, info)
-    reseed_first(ctx)
-    order(ctx, tool)
+    info = manifest_sites(ctx, tool, cfg)  # anchors: an AnalysisError here aborts the whole check (exit 2)
+    ctx.rule(save_before_ack, tool, cfg, info)
+    ctx.rule(durable_ack, tool, cfg, info)
+    ctx.rule(filter_before_work, tool, cfg, info)
+    ctx.rule(seed_identity, tool, cfg, info)
+    ctx.rule(reseed_first)
+    ctx.rule(order, tool)
 
 
 def _is_manifest(n):
